@@ -29,7 +29,7 @@ MANIFEST = dict(
          "and keeps it unaliased (the O(n+k) clause), a shared list is copied exactly once and is unaliased afterwards, drop_lhs makes "
          "the operator's argument unique. The machine is tied to /repo on every run by comparing its heap with the implementation's "
          "real Rc graph (addresses, strong counts) after every statement of generated histories; the O(n+k) clause is measured "
-         "directly with a counting global allocator on 61 workloads (every payload kind under op-assign at top level and through list slot / dict key / struct field, nested pop/remove/consume, op-assign with a shared right operand) at 6 size points, unaliased and once-aliased.",
+         "directly with a counting global allocator on 76 workloads (dictionary-merging op-assigns with growing values, loops whose condition is the mutated collection, every payload kind under op-assign at top level and through list slot / dict key / struct field, nested pop/remove/consume, op-assign with a shared right operand) at 6 size points, unaliased and once-aliased.",
     note="The unaliased/copy-once/drop_lhs theorems are proved for the FLAT fragment only (list of scalars, paths of depth <= 1); nested "
          "rows, dicts, struct fields and pop/remove/builtins at depth are covered by the graph comparison and the allocation "
          "measurement, not by theorems (notes/C02.md). Trusted: Coq kernel; hand-written machine; extraction + OCaml runner; Rust "
@@ -272,6 +272,25 @@ WORKLOADS = [
     ("list slot dict |.=", "list", lambda n: ["x := [{}, 0]", f"for (i <- 0 til {n}) (x[0] |.= i)"], lambda n, k: f"for (i <- 0 til {k}) (x[0] |.= ({n} + i))"),
     ("list slot dict |..=", "list", lambda n: ["x := [{}, 0]", f"for (i <- 0 til {n}) (x[0] |.= i)"], lambda n, k: f"for (i <- 0 til {k}) (x[0] |..= [i % {n}, i])"),
     ("vector + scalar", "vector", lambda n: [f"x := vector({lit_list(n)})"], lambda n, k: f"for (i <- 0 til {k}) (x[i % {n}] += 1; x[-1] -= 1)"),
+    # dictionary-merging op-assigns with growing / large values (the grouping idiom `groups ||++= {key: [item]}`): the slot of a
+    # common key must be moved out while the values are combined
+    ("dict ||++= growing list", "dict", lambda n: [f"x := {{0: {lit_list(n)}, 1: {lit_list(n)} ++ []}}"], lambda n, k: f"for (i <- 0 til {k}) (x ||++= {{(i % 2): [i]}})"),
+    ("dict ||++= growing list, string key", "dict", lambda n: [f"x := {{\"a\": {lit_list(n)}}}"], lambda n, k: f"for (i <- 0 til {k}) (x ||++= {{\"a\": [i]}})"),
+    ("dict ||++= growing vector", "dict", lambda n: [f"x := {{0: vector({lit_list(n)})}}"], lambda n, k: f"for (i <- 0 til {k}) (x ||++= {{0: vector([i])}})"),
+    ("dict ||++= new keys", "dict", lambda n: [f"x := {{}}", f"for (i <- 0 til {n}) (x[i] = [i])"], lambda n, k: f"for (i <- 0 til {k}) (x ||++= {{({n} + i): [i]}})"),
+    ("dict ||+= counters", "dict", lambda n: [f"x := {{}}", f"for (i <- 0 til {n}) (x[i] = i)"], lambda n, k: f"for (i <- 0 til {k}) (x ||+= {{(i % {n}): 1}})"),
+    ("dict ||-= counters", "dict", lambda n: [f"x := {{}}", f"for (i <- 0 til {n}) (x[i] = i)"], lambda n, k: f"for (i <- 0 til {k}) (x ||-= {{(i % {n}): 1}})"),
+    ("dict ||= fresh keys", "dict", lambda n: [f"x := {{}}", f"for (i <- 0 til {n}) (x[i] = i)"], lambda n, k: f"for (i <- 0 til {k}) (x ||= {{({n} + i): i}})"),
+    ("list slot dict ||++=", "list", lambda n: [f"x := [{{0: {lit_list(n)}}}, 0]"], lambda n, k: f"for (i <- 0 til {k}) (x[0] ||++= {{0: [i]}})"),
+    ("dict bucket dict ||++=", "dict", lambda n: [f"x := {{\"g\": {{0: {lit_list(n)}}}}}"], lambda n, k: f"for (i <- 0 til {k}) (x[\"g\"] ||++= {{0: [i]}})"),
+    ("struct field dict ||++=", "P", lambda n: ["struct P (pa, pb)", f"x := P({{0: {lit_list(n)}}}, 0)"], lambda n, k: f"for (i <- 0 til {k}) (x[pa] ||++= {{0: [i]}})"),
+    # a loop whose CONDITION evaluates to the collection the body mutates (drain / worklist idiom): the condition's value must
+    # not stay alive while the body runs
+    ("while (x) append/pop", "list", lambda n: [f"x := {lit_list(n)}", "j := 0"], lambda n, k: f"while (x) (x append= j; pop x; j += 1; if (j >= {k}) break)"),
+    ("while (x) remove-at-end", "list", lambda n: [f"x := {lit_list(n)}", "j := 0"], lambda n, k: f"while (x) (x append= j; remove x[-1]; j += 1; if (j >= {k}) break)"),
+    ("while (x) index-assign", "list", lambda n: [f"x := {lit_list(n)}", "j := 0"], lambda n, k: f"while (x) (x[j % {n}] = j; j += 1; if (j >= {k}) break)"),
+    ("while (x) dict worklist", "dict", lambda n: [f"x := {{}}", f"for (i <- 0 til {n}) (x |.= i)", "j := 0"], lambda n, k: f"while (x) (x |.= ({n} + j); x -.= ({n} + j); j += 1; if (j >= {k}) break)"),
+    ("while (x[0]) nested pop", "list", lambda n: [f"x := [{lit_list(n)}, 0]", "j := 0"], lambda n, k: f"while (x[0]) (x[0] append= j; pop x[0]; j += 1; if (j >= {k}) break)"),
     ("string index-assign", "str", lambda n: [f"x := \"a\" $* {n}"], lambda n, k: f"for (i <- 0 til {k}) (x[i % {n}] = \"b\")"),
 ]
 
